@@ -25,14 +25,16 @@ def plan(tier, seed):
     # whose numerical environment differs from the parent's only show at sizes where the library splits its work (started first:
     # they are the slowest shards of this check on a loaded machine)
     for p in range(1 if q else 3):
+        th = [2, 3, 8][p]     # few threads in the quick tier: 8 spinning BLAS threads beside 15 other shards cost minutes on a busy machine
         specs.append(dict(name="wide-%d" % p, mode="interp", role="wide", part=p, seed=seed, nconf=2 if q else 4, timeout=900 if q else 3400,
-                          env={"OPENBLAS_NUM_THREADS": 8, "OMP_NUM_THREADS": 8, "MKL_NUM_THREADS": 8}))
+                          env={"OPENBLAS_NUM_THREADS": th, "OMP_NUM_THREADS": th, "MKL_NUM_THREADS": th}))
     modes = ["interp"] if q else ["interp", "interp", "interp", "jit"]
     for i in range(n_inputs):
         mode = modes[i % len(modes)]
         specs.append(dict(name="ref-%d" % i, mode=mode, role="ref", input=i, seed=seed))
         specs.append(dict(name="cfgA-%d" % i, mode=mode, role="A", input=i, seed=seed, nconf=5 if q else 12))
-        specs.append(dict(name="cfgB-%d" % i, mode=mode, role="B", input=i, seed=seed, nconf=4 if q else 12, big=(not q and i % 4 == 0)))
+        specs.append(dict(name="cfgB-%d" % i, mode=mode, role="B", input=i, seed=seed, nconf=4 if q else 12, big=(not q and i % 4 == 0),
+                          env={"PYTHONHASHSEED": 1000 + 17 * i}))    # another string-hash seed than the reference interpreter's
     for p in range(2 if q else 6):
         specs.append(dict(name="entry-%d" % p, mode="interp", role="entry", part=p, seed=seed, n=20 if q else 80))
     return specs
@@ -137,6 +139,9 @@ def run_config(case, conf, res):
     c = dict(case)
     c["nproc"] = conf["nproc"]
     c["mp"] = conf["mp"]
+    if conf.get("start") and conf["mp"]:
+        c["start_method"] = conf["start"]
+        res.count("configurations_with_start_method_" + conf["start"])
     c["task_plan"] = conf.get("task_plan") or {}
     run = e2e.run_case(c)
     K = case["K"]
@@ -210,6 +215,10 @@ def run_shard(spec, res):
             kind = kinds[(j + (3 if spec["role"] == "B" else 0)) % len(kinds)]
             confs.append(dict(name="np%d-%s-%s" % (nproc, "mp" if mp else "sp", kind), nproc=nproc, mp=mp,
                               task_plan=delays_for(kind, K, 25, rng), preceding=int(rng.integers(1, 4)) if spec["role"] == "B" and j % 2 == 0 else 0))
+            if spec["role"] == "A" and j in (1, 3):
+                # the caller's program selected another start method for worker processes
+                confs[-1]["start"] = "spawn" if j == 1 else "forkserver"
+                confs[-1]["name"] += "-" + confs[-1]["start"]
             if spec["role"] == "B" and j == 3:
                 confs[-1]["failing_before"] = True
             if spec["role"] == "B" and j == 2:
@@ -334,6 +343,8 @@ def finalize(merged, tier):
         out["inconclusive"].append("no compared configuration was preceded by a call with a large matrix size")
     if merged["counters"].get("entry_point_repeat_comparisons", 0) < (30 if tier == "quick" else 300):
         out["inconclusive"].append("entry-point history comparisons: %d" % merged["counters"].get("entry_point_repeat_comparisons", 0))
+    if merged["counters"].get("configurations_with_start_method_spawn", 0) < 3:
+        out["inconclusive"].append("fewer than 3 configurations ran their worker processes under the spawn start method")
     if merged["counters"].get("wide_pairs_compared", 0) < 1:
         out["inconclusive"].append("no pair of configurations was compared on a wide problem with the linear-algebra library multi-threaded")
     if compared < (40 if tier == "quick" else 400):
@@ -344,6 +355,7 @@ def finalize(merged, tier):
 def _conf_from_name(name):
     parts = name.split("-")
     try:
-        return {"name": name, "nproc": int(parts[0][2:]), "mp": parts[1] == "mp"}
+        return {"name": name, "nproc": int(parts[0][2:]), "mp": parts[1] == "mp",
+                "start": parts[-1] if parts[-1] in ("spawn", "forkserver") else None}
     except Exception:
         return {"name": name, "nproc": 1, "mp": False}
